@@ -52,7 +52,8 @@ package protocol
 //@ func (*Tunnel).Write
 //@   requires[C10] wf: t != nil && t.transportOut != nil
 //@   requires[C01] history: mayWrite(pkt)
-//@   assigns t.BytesSent, #lastType, #lastStatus, #errSent, #hsOK, #tcOK, #taOK, #ccOK, #closeOK, region(map:(_ BitVec 32):ghost.held)
+//@   assigns t.BytesSent, #lastType, #lastStatus, #errSent, #hsOK, #tcOK, #taOK, #ccOK, #closeOK, #outFailed, region(map:(_ BitVec 32):ghost.held)
+//@   ghostset #outFailed = old(#outFailed) || result != nil
 //@   ensures[C01] written: written(pkt)
 //@   site transport.Transport.WritePacket requires[C06] verbatim: arg1 == pkt && arg0 == t.transportOut
 // the packet loop and the relay goroutine both write: one writer at a time (a websocket connection panics on
@@ -182,12 +183,17 @@ package protocol
 //@   nopanic[C10]
 
 //@ func forward
-//@   requires[C10] wf: in != nil && tunnel != nil && tunnel.transportOut != nil
+//@   requires[C10] wf: in != nil && tunnel != nil && tunnel.transportOut != nil && tunnel.transportIn != nil
 //@   spawn requires[C01] once: in == #backend && #dials == 1 && #fwd == 0
 //@   spawn assigns #fwd
 //@   spawn ensures #fwd == old(#fwd) + 1
 //@   assigns *
 //@   loop 0 invariant[C06] scratch: buflen(b1) == 0 && len(buf) == 4086
+// a write to the client that fails ends the relay and the tunnel: the incoming side is closed (the packet loop then
+// returns and releases the rest), the host connection is closed on the way out
+//@   loop 0 invariant[C11] alive: #outFailed == old(#outFailed)
+//@   ensures[C11] outGone: #outFailed && !old(#outFailed) ==> closed(tunnel.transportIn)
+//@   ensures[C11] hostReleased: closed(in)
 //@   site (*Tunnel).Write requires[C06] datapkt: le16(arg1, 0) == 0xA && le16(arg1, 2) == 0 && le32(arg1, 4) == uint32(len(arg1)) && len(arg1) == n + 10 && le16(arg1, 8) == uint16(n) && n <= 65535
 //@   site (*Tunnel).Write requires[C06] payload: forall i :: 10 <= i && i < n + 10 ==> arg1[i] == buf[i-10]
 //@   nopanic[C10]
@@ -214,7 +220,7 @@ package protocol
 //@   assigns[C07] p.state, p.tunnel.rwc, p.tunnel.TargetServer, p.tunnel.BytesSent, p.tunnel.BytesReceived, p.tunnel.LastSeen, p.gw.IdleTimeout
 //@   assigns[C07] p.tunnel.RemoteAddr, region(identity.User.userName) at p.tunnel.User
 //@   assigns #capsMatched, #capsClient, #hsMajor, #hsMinor, #hsExtAuth
-//@   assigns #errSent, #closeOK, #hsOK, #tcOK, #taOK, #ccOK, #cookieOK, #hostOK, #hostChecked, #reqServer, #reqPort, #dials, #dialAddr, #backend, #fwd, #lastType, #lastStatus, #relayed, #connWrite, #connWriteTo, #connWrites, #lastNow, #reads, #prevChunk, #lastChunk, #readFailed, #cur, #consumed
+//@   assigns #outFailed, #errSent, #closeOK, #hsOK, #tcOK, #taOK, #ccOK, #cookieOK, #hostOK, #hostChecked, #reqServer, #reqPort, #dials, #dialAddr, #backend, #fwd, #lastType, #lastStatus, #relayed, #connWrite, #connWriteTo, #connWrites, #lastNow, #reads, #prevChunk, #lastChunk, #readFailed, #cur, #consumed
 //@   ensures[C01,C11] once: #dials <= 1 && #fwd <= 1
 //@   ensures[C01] errorEnds: #errSent ==> result != nil
 //@   ensures[C01] cleanEnd: result == nil ==> #closeOK
@@ -242,6 +248,18 @@ package protocol
 //@ func init
 //@   assigns *
 //@   ensures[C10] ready: pkgReady()
+
+// a tunnel whose client never opened the incoming connection expires from the cache: its outgoing connection
+// is closed then (C11: bounded by the cache's expiry and clean-up intervals)
+//@ func init#1
+//@   requires[C10] cacheMade: c != nil
+//@   site (*github.com/patrickmn/go-cache.cache).OnEvicted requires[C11] registered: fnIs(arg1, "protocol.closeParked")
+//@   nopanic[C10]
+
+//@ func closeParked
+//@   assigns *
+//@   ensures[C11] parked: typeIs(v, ptr(Tunnel)) && dyn(v, ptr(Tunnel)) != nil && old(dyn(v, ptr(Tunnel)).transportIn) == nil && old(dyn(v, ptr(Tunnel)).transportOut) != nil ==> closed(old(dyn(v, ptr(Tunnel)).transportOut))
+//@   nopanic[C10]
 
 //@ func NewProcessor
 //@   ensures[C01] fresh: result != nil && fresh(result) && result.gw == gw && result.tunnel == tunnel && result.state == 0
